@@ -244,7 +244,7 @@ pub fn index_bytes(cff2: bool, off_size: u8, items: &[Vec<u8>]) -> Vec<u8> {
 
 /// CFF (version 1) table: header, Name INDEX, Top DICT INDEX, String INDEX, Global Subr INDEX, CharStrings INDEX,
 /// Private DICT, Local Subr INDEX (last, so that hostile INDEX bytes see the same "rest of the table" as `cs`).
-fn cff1_table(c: &Case) -> Vec<u8> {
+fn cff1_table(c: &Case) -> (Vec<u8>, usize) {
     let mut t: Vec<u8> = vec![1, 0, 4, 4];
     t.extend_from_slice(&index_bytes(false, 1, &[b"A".to_vec()]));
     // top dict: CharStrings offset (17), Private size + offset (18): 2 * 5 + 1 + 5 + 5 + 1 = 17... laid out below
@@ -268,18 +268,19 @@ fn cff1_table(c: &Case) -> Vec<u8> {
     assert_eq!(top.len(), top_len);
     t.extend_from_slice(&index_bytes(false, 1, &[top]));
     t.extend_from_slice(&strings);
+    let goff = t.len();
     t.extend_from_slice(&c.gsubrs);
     t.extend_from_slice(&charstrings);
     t.extend_from_slice(&private);
     if let Some(l) = &c.lsubrs {
         t.extend_from_slice(l);
     }
-    t
+    (t, goff)
 }
 
 /// CFF2 table: header, Top DICT, Global Subr INDEX, CharStrings INDEX, FDArray INDEX (one Font DICT), VariationStore,
 /// Private DICT, Local Subr INDEX (last).
-fn cff2_table(c: &Case) -> Vec<u8> {
+fn cff2_table(c: &Case) -> (Vec<u8>, usize) {
     let has_vs = c.blend.is_some();
     let top_len = 6 + 7 + if has_vs { 6 } else { 0 };
     let mut t: Vec<u8> = vec![2, 0, 5];
@@ -321,6 +322,7 @@ fn cff2_table(c: &Case) -> Vec<u8> {
     }
     assert_eq!(top.len(), top_len);
     t.extend_from_slice(&top);
+    let goff = t.len();
     t.extend_from_slice(&c.gsubrs);
     t.extend_from_slice(&charstrings);
     let mut font_dict: Vec<u8> = vec![];
@@ -334,7 +336,17 @@ fn cff2_table(c: &Case) -> Vec<u8> {
     if let Some(l) = &c.lsubrs {
         t.extend_from_slice(l);
     }
-    t
+    (t, goff)
+}
+
+/// What the table parser sees as the global subr INDEX of the embedded case: `Cff::read` / `Cff2::read` parse it from
+/// its first byte to the END of the table (so an empty INDEX takes the next table byte as its offSize, and offsets
+/// may reach into the following data).  The model request of a `cse` case carries this view.
+pub fn embedded_view(c: &Case) -> Case {
+    let (t, goff) = if c.cff2 { cff2_table(c) } else { cff1_table(c) };
+    let mut v = c.clone();
+    v.gsubrs = t[goff..].to_vec();
+    v
 }
 
 pub fn build_cff_font(c: &Case) -> Result<Vec<u8>, String> {
@@ -349,9 +361,9 @@ pub fn build_cff_font(c: &Case) -> Result<Vec<u8>, String> {
     fb.add_table(&hhea).map_err(|e| e.to_string())?;
     fb.add_table(&hmtx).map_err(|e| e.to_string())?;
     if c.cff2 {
-        fb.add_raw(Tag::new(b"CFF2"), cff2_table(c));
+        fb.add_raw(Tag::new(b"CFF2"), cff2_table(c).0);
     } else {
-        fb.add_raw(Tag::new(b"CFF "), cff1_table(c));
+        fb.add_raw(Tag::new(b"CFF "), cff1_table(c).0);
     }
     Ok(fb.build())
 }
